@@ -206,7 +206,67 @@ def work_bfs(depth):
     return part
 
 
+# ---------------------------------------------------------------------------
+# keys inserted through Session.press_keys are not limited to 15; typed keys are refused while 15 or more wait.
+# Whatever is delivered comes in order, none lost, none repeated, none replaced.
+
+def paste_cases(quick):
+    out = []
+    for n in (list(range(13, 19)) + [31, 32, 33, 34]) if quick else range(0, 50):
+        for reads in (0, 1, 3):
+            for typed2 in (0, 1, 2):
+                out.append((n, reads, typed2))
+    return out
+
+
+def work_paste(shard):
+    part = Partial()
+    for n, reads, typed2 in shard:
+        case = {'pasted': n, 'reads': reads, 'typed_after': typed2}
+        s = _fresh()
+        model = []
+        text = ''.join(chr(65 + i % 26) for i in range(n))
+        if n:
+            s.press_keys(text)
+            model.extend(text)
+        labels = iter('zyxwv')
+        viols = []
+
+        def typed():
+            ch = next(labels)
+            _press(s, ch)
+            if len(model) < CAP:
+                model.append(ch)
+
+        typed()
+        for _ in range(reads):
+            _apply(s, 'inkey', model, 0, viols)
+        for _ in range(typed2):
+            typed()
+        # read everything that waits, and two more
+        for _ in range(len(model) + 2):
+            _apply(s, 'inkey', model, 0, viols)
+        part.n += 1
+        part.traces += 1
+        for k, w in viols[:1]:
+            part.violation('paste/' + k, 'pasted %d keys, typed one, read %d, typed %d: %s' % (n, reads, typed2, w), case)
+        part.classes.add('paste/%s/%s' % ('over15' if n >= CAP else 'under15', 'over31' if n > 31 else ''))
+        s.close()
+    part.sample({'pasted': shard[0][0], 'reads': shard[0][1], 'typed_after': shard[0][2]})
+    return part
+
+
 def legs(ctx):
+    from mc.core import chunked
+    pc = paste_cases(ctx.quick)
+    return _legs_ring(ctx) + [
+        Leg('paste', list(chunked(pc, 15)), work_paste, exhaustive=True,
+            bound='%d scenarios: n keys inserted with Session.press_keys (n = %s), a typed key, 0/1/3 reads, 0..2 more typed keys, then '
+                  'everything is read: keys come out in order, typed keys are refused only while 15 or more wait, no waiting key is '
+                  'replaced' % (len(pc), '13..18, 31..34' if ctx.quick else '0..49'))]
+
+
+def _legs_ring(ctx):
     depth = QUICK_DEPTH if ctx.quick else 400
     return [Leg('ring-bfs', [depth], work_bfs, exhaustive=True, serial=True,
                 bound='all histories over %r up to depth %d with exact state dedup%s' % (
@@ -215,6 +275,8 @@ def legs(ctx):
 
 def replay(ctx, leg, case):
     part = Partial()
+    if leg == 'paste':
+        return work_paste([(case['pasted'], case['reads'], case['typed_after'])])
     hist = tuple(case['history'])
     for op, key, viols, info in expand(hist[:-1]):
         if op == hist[-1]:
